@@ -21,7 +21,7 @@ SIG_D2 = "tangent-sign-forcing-mirrors"
 
 def gen_cases(ck):
     cases = ck.corpus_cases()
-    n = 18 if ck.tier == "quick" else 120
+    n = 60 if ck.tier == "quick" else 400
     for i in range(n):
         tissue = ["random", "jitter", "hex"][int(ck.rng.integers(3))]
         near_axis = bool(ck.rng.integers(3) == 0)
@@ -34,7 +34,7 @@ def gen_cases(ck):
                       "scale": float(10.0 ** ck.rng.uniform(-2, 2)), "shift": [float(ck.rng.normal() * 3), float(ck.rng.normal() * 3)],
                       "p_rev": float(ck.rng.choice([0.0, 0.5])), "shifts": True, "relabel": bool(ck.rng.integers(2)),
                       "fit": ["dlite", "taubinSVD"][int(ck.rng.integers(2))], "ignore_four": bool(ck.rng.integers(2))})
-    for i in range(4 if ck.tier == "quick" else 16):
+    for i in range(8 if ck.tier == "quick" else 32):
         cases.append({"type": "lattice", "seed": int(ck.rng.integers(1 << 30)), "tissue": ["brick", "square"][i % 2],
                       "nx": int(ck.rng.integers(2, 5)), "ny": int(ck.rng.integers(2, 5)), "kmin": [0, 0, 2, 1][i % 4], "kmax": [0, 0, 2, 4][i % 4],
                       "angle": [0.0, 0.0, math.pi / 2, 0.0][i % 4], "scale": [1.0, 0.5, 2.0, 4.0][i % 4], "shift": [0.0, 0.0],
@@ -97,6 +97,7 @@ def run_case(ck, case, reqs, pending):
         ck.fail("two rows per kept junction, one column per unknown", f"shape {M.shape}, rows {sorted(rowmap.values())[:6]}", case)
     # ---------------- S: coefficients against the closed-form tangent
     jun_of_vid = {vid: j for j, vid in bm.vid_of_junction.items()}
+    cs = statics.centers(sc, fit)
     worst = 0.0
     straight = sc.mob is None
     if M.shape == (2 * len(rowmap), len(used)) and used == [earr[i] for i in internal]:
@@ -118,11 +119,19 @@ def run_case(ck, case, reqs, pending):
                 if len(ids) > 2 and ((t.real > 0) != (ch[0] >= 0) or (t.imag > 0) != (ch[1] >= 0)):
                     flagged.add(col)
             got = M[r:r + 2, :]
-            tol = TOL_LINE if (straight or True) else TOL_ARC
             for col in range(len(used)):
                 pts = len(used[col])
                 is_line = straight or pts == 2
-                tol = (1e-9 if pts == 2 else TOL_LINE) if is_line else TOL_ARC
+                if is_line:
+                    tol = 1e-9 if pts == 2 else TOL_LINE
+                else:
+                    # the fit is an iterative external kernel (scipy leastsq, relative xtol 1.5e-8 on the centre): its accuracy
+                    # degrades for nearly straight arcs (R/L large) and for tissues far from the origin (|coords|/L large);
+                    # measured worst deviations: 5e-5 at R/L = 4e3, 2.5e-6 at |coords|/L = 3e3 (DESIGN.md §3)
+                    P = np.array([[frame.vertices[i].x, frame.vertices[i].y] for i in used[col]])
+                    L = float(np.linalg.norm(P[0] - P[-1]))
+                    R = float(np.hypot(P[0, 0] - cs[earr.index(used[col])][0], P[0, 1] - cs[earr.index(used[col])][1]))
+                    tol = TOL_ARC * max(1.0, R / L / 10.0, float(np.max(np.abs(P))) / L / 100.0)
                 dev = float(np.max(np.abs(got[:, col] - expect[:, col])))
                 worst = max(worst, dev if col not in flagged else 0.0)
                 if dev > tol:
@@ -134,7 +143,6 @@ def run_case(ck, case, reqs, pending):
     ck.count("coeff_checked", len(rowmap) * len(used))
     ck.dist["worst_coeff_dev"] = max(ck.dist.get("worst_coeff_dev", 0.0), worst)
     # ---------------- K
-    cs = statics.centers(sc, fit)
     reqs.append({"op": "fmatrix", "mesh": mesh_json(frame.vertices, frame.edges, frame.cells),
                  "centers": [[rat(x), rat(y)] for x, y in cs], "cos": None, "ignoreFour": ig})
     pending.append((case, earr, used, sorted(int(x) for x in fm.deletes), rowmap, M))
